@@ -4,7 +4,7 @@
    slice stiffness is Gen/GenStiffness.v (regenerated from the source). *)
 From Coq Require Import ZArith QArith Qabs List Bool Arith Sorted Permutation.
 From Inkfem Require Import Num.NumOps Gen.GenStiffness Gen.GenRecover Model.Types Model.Slice Model.Dof Model.Assemble Model.Recover
-  Spec.Superposition Proofs.AssembleProofs Proofs.FieldProofs Proofs.SystemProofs Gen.GenAssemble Proofs.AssembleShape.
+  Spec.Superposition Proofs.AssembleProofs Proofs.FieldProofs Proofs.SystemProofs Gen.GenAssemble Proofs.AssembleShape Proofs.AssembleSteps.
 Import ListNotations.
 Local Open Scope Q_scope.
 
@@ -100,6 +100,17 @@ Theorem C17_numbers_the_source_picks_for_a_support_get_the_trivial_equation :
   f_final fs (supported_of nodes) i == 0.
 Proof. exact supported_number_is_trivial. Qed.
 Print Assumptions C17_numbers_the_source_picks_for_a_support_get_the_trivial_equation.
+
+(* the superposition, operationally: start from an empty matrix and vector; bar after bar do what setEquationTerms does, in its
+   order (asm_per_bar, regenerated): AddToValue for every stiffness term, an addition for every load term; then what
+   MakeSystemOfEquations does after the bars, in its order (asm_after_bars, regenerated): the trivial equation for every number
+   below the count whose row is still empty, then SetZeroCol / SetIdentityRow / SetZero for every supported number in turn.
+   What these operations end with is, entry for entry, the system (k_final, f_final) that every other theorem speaks about *)
+Theorem C17_the_operations_of_the_source_in_its_order_yield_the_system : forall (n : nat) (bars : list (pbar Q)) (sup : list nat),
+  (forall i j, (i < n)%nat -> sm (assemble n bars sup) i j = k_final (all_contribs bars) sup i j) /\
+  (forall i, sv (assemble n bars sup) i = f_final (all_fterms bars) sup i).
+Proof. exact steps_of_the_source_yield_the_system. Qed.
+Print Assumptions C17_the_operations_of_the_source_in_its_order_yield_the_system.
 
 (* what the superposition means for a displacement vector: row i of (accumulated matrix) x u is the sum
    of the forces the finite elements exert at number i - each element's stiffness (as assembled)
